@@ -13,7 +13,7 @@ LEVEL_TEXT = 'Write-footprint monitor: after every assignment the whole content 
 LEVEL_NOTE = "trusts numpy 2.x, CPython (copy.copy, slice semantics, big ints) and the reference model in rtmon/props/c03.py; decides the executions it produces, nothing more"
 TECHNIQUE = 'runtime monitoring: write-footprint tap (peek of every live array before/after) + list-model oracle'
 DESIGN_REF = "DESIGN.md sections 0, 5 (C03), 7"
-RULE = ("case = (row lengths, index expression accepted for reading with non-repeating rows | boolean ragged mask, value kind); "
+RULE = ("case = (row lengths, index expression accepted for reading with non-repeating rows (repeating ones with a scalar value) | boolean ragged mask, value kind); "
         "the whole content of the target, of an alias ra[...], of a bystander array and of the value operand is compared with the "
         "list model after the write; distinct = hash of the case; non-trivial = >= 2 rows, >= 1 addressed cell (or a value that must be refused)")
 ASSUMPTIONS = ["column vectors are assigned to 2-D selections only (numpy refuses them for 1-D selections too)",
@@ -28,7 +28,7 @@ ANCHORS = [
     "raggedarray/indexablearray.py::IndexableArray._get_element",
 ]
 VK = ["scalar", "flat", "flatlist", "colvec", "collist", "ragged", "bad_same_total", "bad_total", "bad_rows", "bad_onerow"]
-FLOOR_TAGS = ["vk:" + v for v in VK] + ["mask:scalar", "mask:flat", "r:int", "r:slice+1", "r:slice+k", "r:slice-", "r:list", "r:mask", "r:ell",
+FLOOR_TAGS = ["vk:" + v for v in VK] + ["mask:scalar", "mask:flat", "r:int", "r:slice+1", "r:slice+k", "r:slice-", "r:list", "r:mask", "r:ell", "rows-repeat",
                                         "recv:fresh", "recv:lazyrows", "recv:lazycols+2", "recv:lazycols-1", "recv:lazychain", "recv:deepcopy", "recv:pickle", "values:hostile-floats", "valdtype:other", "valdtype:exotic", "ellipsis-padded", "seq", "seq:50+", "vk:selfsel", "overlap", "value-is-receiver",
                                         "c:none", "c:int+", "c:int-", "c:slice+1", "c:slice+k", "c:slice-", "sel-has-empty-row", "e-first", "e-last", "e-mid", "allempty", "norows"]
 FLOOR_MONITORS = ["c03:footprint", "c03:must-refuse", "c03:bystander", "c03:alias", "c03:parent-untouched", "c03:pairs", "c03:selfflat"]
@@ -329,7 +329,9 @@ def run(case):
         return undefined("index not accepted for reading", tags)
     flatcells = model.flat_cells(kind, cells)
     if len(set(flatcells)) != len(flatcells):
-        return undefined("repeating rows", tags)
+        if vk != "scalar" or case.get("scarrier") or hostile:
+            return undefined("repeating rows", tags)
+        tags.append("rows-repeat")          # one scalar for cells that are named more than once: they get it, every other cell keeps its own
     nsel = len(cells) if kind == "RA" else 1
     if not applicable(kind, vk, nsel):
         return undefined("value kind %s not applicable to a %s selection" % (vk, kind), tags)
@@ -634,6 +636,15 @@ def directed():
         yield c
     for c in selfflat_cases():
         yield c
+    # one scalar through row lists that name a row more than once (ascending, descending, as lists and as arrays, also with a column selector)
+    import itertools
+    for lens_ in ([2, 3, 3, 1, 2], [1, 1, 1, 1], [4, 2, 2, 4, 0, 4]):
+        for rs_ in itertools.combinations_with_replacement(range(len(lens_)), 3):
+            if len(set(rs_)) == 3:
+                continue
+            for form_ in (list(rs_), np.array(rs_[::-1]), [r_ - len(lens_) for r_ in rs_]):
+                yield mk_case(lens_, form_, None, False, "scalar")
+            yield mk_case(lens_, list(rs_), slice(0, 1), True, "scalar", recv="lazyrows")
     for k in range(40):
         yield gen_seq(rng, "quick", nsteps=[5, 12, 50, 60][k % 4])
     for k in range(150):
